@@ -246,6 +246,9 @@ func (x *X) applyContract(s *State, callee *ssa.Function, ct *Contract, args []V
 		res = append(res, v)
 	}
 	for _, c := range ct.Ensures {
+		if c.Assumed {
+			x.assumed[key+": trusted-ensures "+c.Name+" ("+c.Text+")"] = true
+		}
 		s.assume(x.evalClause(s, c, evalCtx{callee: callee, args: am, old: pre, results: res, post: true, assuming: true}))
 	}
 	switch len(res) {
@@ -276,6 +279,9 @@ func (x *X) havocTarget(s *State, m string, am map[string]Val, prefix string) {
 		s.ghost[m] = g.fresh(x, s, prefix+".")
 	case Sc:
 		s.ghost[m] = Sc{T: x.sym(prefix+"."+m, g.Sort), Sort: g.Sort}
+		if m == "Bal" {
+			x.assumeBalNonNeg(s)
+		}
 	case GRec:
 		s.ghost[m] = GRec{Present: x.sym(prefix+"."+m+".present", "Bool"), V: x.havocLike(s, prefix+"."+m, nil, g.V)}
 	case St:
